@@ -242,22 +242,22 @@ func TestParseDotOnTinySpec(t *testing.T) {
 func TestRunnerRestartsAfterErrors(t *testing.T) {
 	haveJava(t)
 	exprs := []string{
-		`{1,2} \cup {3}`,         // 0
-		`2147483647 + 1`,         // 1 overflow
-		`1 \div 0`,               // 2
-		`Head(<<>>)`,             // 3
-		`<<1,2>>[3]`,             // 4
-		`1 = "a"`,                // 5 type
+		`{1,2} \cup {3}`, // 0
+		`2147483647 + 1`, // 1 overflow
+		`1 \div 0`,       // 2
+		`Head(<<>>)`,     // 3
+		`<<1,2>>[3]`,     // 4
+		`1 = "a"`,        // 5 type
 		`SUBSET {"aaaaaaaaaaaa","bbbbbbbbbbb","ccccccccc","} >> ]"}`, // 6 wrapped output
-		`Assert(FALSE, "m")`,     // 7
+		`Assert(FALSE, "m")`,      // 7
 		`CHOOSE x \in {1}: x > 1`, // 8
-		`[a |-> 1].b`,            // 9
-		`(-3) \div 2`,            // 10 = -2
-		`(-2147483647 - 1)`,      // 11
-		`Seq({1})`,               // 12 symbolic
-		`1 +`,                    // 13 parse error
-		`(1 :> 5) = <<5>>`,       // 14 TRUE
-		`Cardinality(Nat)`,       // 15
+		`[a |-> 1].b`,             // 9
+		`(-3) \div 2`,             // 10 = -2
+		`(-2147483647 - 1)`,       // 11
+		`Seq({1})`,                // 12 symbolic
+		`1 +`,                     // 13 parse error
+		`(1 :> 5) = <<5>>`,        // 14 TRUE
+		`Cardinality(Nat)`,        // 15
 	}
 	r := &Runner{Parallel: 4, ChunkSize: 5}
 	res, err := r.Eval(context.Background(), exprs)
